@@ -112,3 +112,80 @@ Theorem wf_tree_needed :
   /\ content_at_path ex_clash (path_new [CName (T "a")] false) = mkSR [SI 1] false.
 Proof. exact (conj ex_clash_not_wf ex_clash_resolves_elsewhere). Qed.
 Print Assumptions wf_tree_needed.
+
+(* (6) relative addressing: the relative path convert_path_to_relative computes
+   from an object to an absolute target resolves, from that object, to exactly
+   what the absolute path resolves to from the root (approximation included).
+   Side condition: the object is a container, or the target does not lie at /
+   below the (non-container) object itself — Path::get_tail turns the empty
+   relative path of a non-container into "its parent" (see wf report). *)
+From Ink.Data Require Import TreeRelProofs.
+Theorem relative_resolves :
+  forall root pos o own target,
+    wf_tree root = true -> obj_at root pos = Some o -> get_path root pos = Ok own -> p_rel target = false ->
+    (is_cont_obj o = true
+     \/ (shared_prefix_len (p_comps own) (p_comps target) < length (p_comps own))%nat) ->
+    resolve_path root pos (convert_path_to_relative own target) = Ok (content_at_path root target).
+Proof. exact relative_resolves_lemma. Qed.
+Check relative_resolves :
+  forall root pos o own target,
+    wf_tree root = true -> obj_at root pos = Some o -> get_path root pos = Ok own -> p_rel target = false ->
+    (is_cont_obj o = true
+     \/ (shared_prefix_len (p_comps own) (p_comps target) < length (p_comps own))%nat) ->
+    resolve_path root pos (convert_path_to_relative own target) = Ok (content_at_path root target).
+Print Assumptions relative_resolves.
+
+(* (7) compact_path_string picks a string that, parsed back and resolved from
+   the object, denotes the same content as the absolute target *)
+Theorem compact_path_sound :
+  forall root pos o own target s,
+    wf_tree root = true -> obj_at root pos = Some o -> get_path root pos = Ok own ->
+    p_rel target = false -> p_cache target = None -> Forall wf_comp (p_comps target) ->
+    (is_cont_obj o = true
+     \/ (shared_prefix_len (p_comps own) (p_comps target) < length (p_comps own))%nat) ->
+    p_comps (convert_path_to_relative own target) <> [] ->
+    compact_path_string own target = Ok s ->
+    resolve_path root pos (path_of_string (Some s)) = Ok (content_at_path root target).
+Proof. exact compact_path_sound_lemma. Qed.
+Check compact_path_sound :
+  forall root pos o own target s,
+    wf_tree root = true -> obj_at root pos = Some o -> get_path root pos = Ok own ->
+    p_rel target = false -> p_cache target = None -> Forall wf_comp (p_comps target) ->
+    (is_cont_obj o = true
+     \/ (shared_prefix_len (p_comps own) (p_comps target) < length (p_comps own))%nat) ->
+    p_comps (convert_path_to_relative own target) <> [] ->
+    compact_path_string own target = Ok s ->
+    resolve_path root pos (path_of_string (Some s)) = Ok (content_at_path root target).
+Print Assumptions compact_path_sound.
+
+Theorem relative_example :
+  resolve_path ex_root [SI 0; SN (T "stitch"); SI 0]
+     (convert_path_to_relative (path_new [CName (T "knot"); CName (T "stitch"); CIdx 0] false)
+                               (path_new [CName (T "knot"); CName (T "g-0")] false))
+  = Ok (mkSR [SI 0; SI 2] false)
+  /\ path_string (convert_path_to_relative (path_new [CName (T "knot"); CName (T "stitch"); CIdx 0] false)
+                                          (path_new [CName (T "knot"); CName (T "g-0")] false))
+     = T ".^.^.g-0".
+Proof. exact ex_relative. Qed.
+Print Assumptions relative_example.
+
+(* (8) a pointer AT a container (index -1, e.g. what pointer_at_path yields for a
+   named path): its path reads back as a pointer that resolves to the same
+   container — the same pointer when the container is named, (parent, index)
+   when it is not.  The root is excluded: its empty path reads back as the null pointer. *)
+Theorem pointer_at_container_roundtrip :
+  forall root cp c,
+    wf_tree root = true -> cont_at root cp = Some c -> cp <> [] -> small_last cp ->
+    exists path ptr', ptr_path root (mkPtr (Some cp) (-1)) = Ok (Some path)
+                   /\ pointer_at_path root path = Ok ptr'
+                   /\ ptr_resolve root ptr' = Some cp
+                   /\ ptr_resolve root (mkPtr (Some cp) (-1)) = Some cp.
+Proof. exact pointer_at_container_roundtrip_lemma. Qed.
+Check pointer_at_container_roundtrip :
+  forall root cp c,
+    wf_tree root = true -> cont_at root cp = Some c -> cp <> [] -> small_last cp ->
+    exists path ptr', ptr_path root (mkPtr (Some cp) (-1)) = Ok (Some path)
+                   /\ pointer_at_path root path = Ok ptr'
+                   /\ ptr_resolve root ptr' = Some cp
+                   /\ ptr_resolve root (mkPtr (Some cp) (-1)) = Some cp.
+Print Assumptions pointer_at_container_roundtrip.
